@@ -2,7 +2,7 @@
 //! Case kinds (see coq/Model/EntryC07.v):
 //!  1 o0..o3  m0..m3                       std_to_libc_in_addr memory image
 //!  3 nph phase* nw code*                  per-upstream TCP task driven with chosen ids
-//!  4 t0 slack nq (lst proto mask delay dup special)*  (nresp rcode own srcok idok utx ttx)*
+//!  4 t0 t0hi slack nq (lst proto mask delay dup special)*  (nresp rcode own srcok idok utx ttx)*
 //!                                         the real DNS service against a scripted upstream
 //! Everything runs inside this process: tokio runtime, sockets on loopback with
 //! ephemeral ports, real timers.  Nothing that depends on scheduling luck is
@@ -530,7 +530,16 @@ fn note(o: &mut Obs, n: u64, id: u16, msg: &[u8], srcok: bool) {
     }
 }
 
+/// Start control shared by all batches of a wave: clients prepare their sockets, report ready,
+/// and are released together; `t_hi` is the largest first-retry delay seen in force (ms).
+struct Wave {
+    ready: AtomicUsize,
+    go: tokio::sync::watch::Receiver<bool>,
+    t_hi: AtomicU64,
+}
+
 async fn client(
+    wave: Arc<Wave>,
     q: Q,
     n: u64,
     id: u16,
@@ -543,6 +552,9 @@ async fn client(
     let msg = build_query(id, n);
     if q.proto == 0 {
         let sock = UdpSocket::bind(if udp_t.is_ipv4() { "127.0.0.1:0" } else { "[::1]:0" }).await.unwrap();
+        wave.ready.fetch_add(1, Ordering::SeqCst);
+        let mut go = wave.go.clone();
+        let _ = go.wait_for(|g| *g).await;
         let _ = sock.send_to(&msg, udp_t).await;
         let mut buf = vec![0u8; 4096];
         loop {
@@ -558,7 +570,11 @@ async fn client(
         }
     } else {
         let mut counted = false;
-        if let Ok(mut s) = TcpStream::connect(tcp_t).await {
+        let conn = TcpStream::connect(tcp_t).await;
+        wave.ready.fetch_add(1, Ordering::SeqCst);
+        let mut go = wave.go.clone();
+        let _ = go.wait_for(|g| *g).await;
+        if let Ok(mut s) = conn {
             let _ = s.set_nodelay(true);
             let mut b = (msg.len() as u16).to_be_bytes().to_vec();
             b.extend(&msg);
@@ -604,7 +620,7 @@ async fn bind_upstream() -> (Arc<UdpSocket>, TcpListener, SocketAddr) {
     }
 }
 
-async fn run_batch(t0: u64, qs: Vec<Q>) -> Vec<(Obs, Seen)> {
+async fn run_batch(wave: Arc<Wave>, qs: Vec<Q>) -> Vec<(Obs, Seen)> {
     use erbium_net::addr::WithPort as _;
     let (usock, tl, upaddr) = bind_upstream().await;
     let nums: Vec<u64> = qs.iter().map(|_| fresh_q()).collect();
@@ -642,6 +658,7 @@ async fn run_batch(t0: u64, qs: Vec<Q>) -> Vec<(Obs, Seen)> {
     for (i, q) in qs.iter().enumerate() {
         let id = (nums[i] as u16).wrapping_mul(40503).wrapping_add(i as u16);
         hs.push(tokio::spawn(client(
+            wave.clone(),
             *q,
             nums[i],
             id,
@@ -652,9 +669,14 @@ async fn run_batch(t0: u64, qs: Vec<Q>) -> Vec<(Obs, Seen)> {
         )));
     }
     // the window: until every client has its first response plus a grace period for
-    // duplicates, at most the documented bound on a full timeout (26 * t0) plus margin
-    let cap = tokio::time::Instant::now() + Duration::from_millis(26 * t0 + 1500);
-    while done.load(Ordering::SeqCst) < qs.len() && tokio::time::Instant::now() < cap {
+    // duplicates, at most the documented bound on a full timeout (26 x the largest first-retry
+    // delay in force during the wave) plus margin
+    let mut go = wave.go.clone();
+    let _ = go.wait_for(|g| *g).await;
+    let start = tokio::time::Instant::now();
+    while done.load(Ordering::SeqCst) < qs.len()
+        && start.elapsed() < Duration::from_millis(26 * wave.t_hi.load(Ordering::SeqCst) + 1500)
+    {
         tokio::time::sleep(Duration::from_millis(10)).await;
     }
     tokio::time::sleep(Duration::from_millis(400)).await;
@@ -671,9 +693,9 @@ async fn run_batch(t0: u64, qs: Vec<Q>) -> Vec<(Obs, Seen)> {
     out
 }
 
-fn put_batch(t0: u64, slack: u64, qs: &[Q], out: &[(Obs, Seen)]) -> Toks {
+fn put_batch(t0: u64, t_hi: u64, slack: u64, qs: &[Q], out: &[(Obs, Seen)]) -> Toks {
     let mut t = Toks::new();
-    t.n(4).n(t0).n(slack).n(qs.len() as u64);
+    t.n(4).n(t0).n(t_hi).n(slack).n(qs.len() as u64);
     for q in qs {
         t.n(q.lst).n(q.proto).n(q.mask).n(q.delay).n(q.dup).n(q.special);
     }
@@ -768,6 +790,7 @@ fn parse_case(ts: &[u64]) -> Option<Case> {
         }
         4 => {
             let t0 = nx(&mut i)?;
+            let _t_hi = nx(&mut i)?;
             let _slack = nx(&mut i)?;
             let nq = nx(&mut i)?;
             let mut qs = vec![];
@@ -862,35 +885,58 @@ fn run(args: &Args, out: &mut dyn Write) -> Stats {
     for wave in batches.chunks(12) {
         let t0 = wave[0].0;
         let lag_us = Arc::new(AtomicU64::new(0));
+        let (go_tx, go_rx) = tokio::sync::watch::channel(false);
+        let ctl = Arc::new(Wave { ready: AtomicUsize::new(0), go: go_rx, t_hi: AtomicU64::new(t0) });
+        let total: usize = wave.iter().map(|(_, q)| q.len()).sum();
         let res: Vec<Vec<(Obs, Seen)>> = rt.block_on(async {
+            let hs: Vec<_> = wave.iter().map(|(_, q)| tokio::spawn(run_batch(ctl.clone(), q.clone()))).collect();
+            // every service is listening and every client has its socket (TCP: is connected);
+            // let things settle, then release all queries at once
+            let t_end = tokio::time::Instant::now() + Duration::from_secs(60);
+            while ctl.ready.load(Ordering::SeqCst) < total && tokio::time::Instant::now() < t_end {
+                tokio::time::sleep(Duration::from_millis(5)).await;
+            }
+            tokio::time::sleep(Duration::from_millis(150)).await;
             hk::set_dns_timeout_ms(t0).await;
-            // scheduling lag of this process during the wave: how late a 5 ms sleep wakes up
+            // scheduling lag of this process during the wave (how late a 5 ms sleep wakes up) and
+            // the largest value the adaptive first-retry delay takes
             let lag = lag_us.clone();
+            let ctl2 = ctl.clone();
+            let wave_start = std::time::Instant::now();
             let canary = tokio::spawn(async move {
                 loop {
                     let t = std::time::Instant::now();
                     tokio::time::sleep(Duration::from_millis(5)).await;
                     let over = t.elapsed().as_micros() as u64;
                     lag.fetch_max(over.saturating_sub(5000), Ordering::Relaxed);
+                    ctl2.t_hi.fetch_max(hk::dns_timeout_ms().await, Ordering::SeqCst);
+                    if over > 55000 && std::env::var("C07_DEBUG").is_ok() {
+                        eprintln!("canary: +{} ms at {} ms", over / 1000, wave_start.elapsed().as_millis());
+                    }
                 }
             });
-            let hs: Vec<_> = wave.iter().map(|(_, q)| tokio::spawn(run_batch(t0, q.clone()))).collect();
+            let _ = go_tx.send(true);
             let mut r = vec![];
             for h in hs {
                 r.push(h.await.unwrap_or_default());
             }
+            ctl.t_hi.fetch_max(hk::dns_timeout_ms().await, Ordering::SeqCst);
             canary.abort();
             r
         });
         let slack = 150 + 3 * (lag_us.load(Ordering::Relaxed) / 1000);
+        let t_hi = ctl.t_hi.load(Ordering::SeqCst);
         stats.add("batch.max-scheduling-lag-ms", lag_us.load(Ordering::Relaxed) / 1000);
+        if t_hi != t0 {
+            stats.bump("batch.waves-where-the-adaptive-delay-moved");
+        }
         for ((_, q), o) in wave.iter().zip(res.iter()) {
             stats.bump("batch");
             if o.len() == q.len() {
-                writeln!(out, "{}", put_batch(t0, slack, q, o).0).unwrap();
+                writeln!(out, "{}", put_batch(t0, t_hi, slack, q, o).0).unwrap();
             } else {
                 // the batch itself failed (harness problem): report as undecodable
-                writeln!(out, "4 {} {} {}", t0, slack, q.len()).unwrap();
+                writeln!(out, "4 {} {} {} {}", t0, t_hi, slack, q.len()).unwrap();
             }
         }
     }
